@@ -248,10 +248,10 @@ for h in kres:
     if vals and mm:
         le = lambda b: int.from_bytes(bytes(b), 'little')
         sle = lambda b: int.from_bytes(bytes(b), 'little', signed=True)
+        N_ = 5 if h.startswith('q_') else 9
         n = le(vals[0])
-        arr = vals[1]
-        xs = [sle(arr[8 * i:8 * i + 8]) for i in range(len(arr) // 8)][:n]
-        w.update({'opc': OPC[mm.group(1)], 'vals': xs, 'thr': sle(vals[2]), 'pre': le(vals[3])})
+        xs = [sle(b) for b in vals[1:1 + N_]][:n]
+        w.update({'opc': OPC[mm.group(1)], 'vals': xs, 'thr': sle(vals[1 + N_]), 'pre': le(vals[2 + N_])})
     ck.violations.append(dict(obligation='V2_i64_filters_match_scalar_kani', key='simd-i64', witness=w, replayed=None))
 
 # ------------------------------------------------------------------ native replay through RelationalEngine (index vs scan)
